@@ -218,6 +218,17 @@ fn check_text(c: &Case, obs: &mut Obs) {
     obs.class_if(font == "null", "null-font");
     obs.class_if(text.is_empty(), "empty-string");
     let (tc, bg, ul, st) = egverif::texts::deco16()[*deco as usize];
+    // "customr:<cw>x<ch>+<spacing>": the same synthetic font with a mapping string that contains a reversed (empty) range
+    if let Some(spec) = font.strip_prefix("customr:") {
+        let (size, spacing) = spec.split_once('+').unwrap();
+        let (cw, ch) = size.split_once('x').unwrap();
+        obs.class("custom-font");
+        egverif::texts::with_custom_font_mapping(cw.parse().unwrap(), ch.parse().unwrap(), spacing.parse().unwrap(), 3, "x\0ba\0ah", |f| {
+            let style = egverif::texts::char_style::<C>(f, tc, bg, ul, st);
+            text_probes(text, *pos, style, *lh, *align, *baseline, obs)
+        });
+        return;
+    }
     if let Some(spec) = font.strip_prefix("custom:") {
         // "custom:<cw>x<ch>+<spacing>": a synthetic font (harness allocations happen outside the probes)
         let (size, spacing) = spec.split_once('+').unwrap();
@@ -577,8 +588,9 @@ fn prim_cases(tier: Tier, part: &str) -> Vec<Case> {
             }
         }
         "arc-sector" => {
-            for &(x, y) in &pos[..pos.len().min(3)] {
-                for d in [0u32, 1, 2, 5, 64, 257, 480, 1024] {
+            let ds: &[u32] = if tier.is_thorough() { &[0, 1, 2, 5, 64, 257, 480, 1024] } else { &[0, 1, 2, 5, 64, 257, 1024] };
+            for &(x, y) in &pos[..pos.len().min(tier.pick(2, 3))] {
+                for &d in ds {
                     for start in [0, 33, 90, 180, 350] {
                         for sweep in [0, 30, 90, 200, -400, 720] {
                             shapes.push(Shape::Arc { x, y, d, start: start * 4, sweep: sweep * 4 });
@@ -668,7 +680,7 @@ fn prim_cases(tier: Tier, part: &str) -> Vec<Case> {
 fn other_cases(tier: Tier) -> Vec<Case> {
     let mut v = vec![];
     // text: null font, line heights, empty strings
-    for font in ["null", "ascii::FONT_4X6", "iso_8859_1::FONT_10X20", "custom:5x7+1", "custom:3x2+4", "custom:8x8+0", "custom:1x1+1024"] {
+    for font in ["null", "ascii::FONT_4X6", "iso_8859_1::FONT_10X20", "custom:5x7+1", "custom:3x2+4", "custom:8x8+0", "custom:1x1+1024", "custom:4x0+0", "custom:0x5+1", "customr:5x7+0"] {
         for text in ["", "a", "ab\ncd", "\n\n", "x\r\ny\n", "Hello World! Hello World!", "\u{1F600}\u{0}", "Gr\u{f6}\u{df}e \u{e4}\u{f6}\u{fc}", "a\u{1F600}b\u{1F600}c"] {
             for lh in [(0u8, 0u32), (0, 1), (0, 1024), (1, 400), (1, 100), (1, 0)] {
                 for align in 0..3u8 {
@@ -743,7 +755,7 @@ fn run_part(run: &mut Run) {
             check,
         );
     } else {
-        run.sweep_vec("text-images-adapters-ranges", "text (null font, line heights {0,1,1024 px,0,100,400 %}, empty and multi-byte strings, positions at, far from and just left of / at the far corner of 64x64 and 320x240 targets, also behind clipped()), images (zero-sized, sub-images outside/across/around at display scale), adapter stacks with display-scale areas, out-of-range points/indices and display-scale fill areas (zero-sized ones included) for Framebuffer, ImageRaw::pixel, raw load/store/nth and sub_image", || other_cases(tier), check);
+        run.sweep_vec("text-images-adapters-ranges", "text (null font, synthetic fonts with zero glyph height / zero glyph width, line heights {0,1,1024 px,0,100,400 %}, empty and multi-byte strings, positions at, far from and just left of / at the far corner of 64x64 and 320x240 targets, also behind clipped()), images (zero-sized, sub-images outside/across/around at display scale), adapter stacks with display-scale areas, out-of-range points/indices and display-scale fill areas (zero-sized ones included) for Framebuffer, ImageRaw::pixel, raw load/store/nth and sub_image", || other_cases(tier), check);
     }
 }
 
